@@ -38,6 +38,10 @@ type Case struct {
 	// SwitchedOff: the same loader loaded the same root document before with external references
 	// allowed; the switch was then turned off
 	SwitchedOff bool `json:"switched_off,omitempty"`
+	// MissingTarget (switch on): one reference of a document outside the root's directory names a file that
+	// does not exist at the location it designates, while a file of that relative name exists next to
+	// the root: only the designated location may be tried
+	MissingTarget string `json:"missing_target,omitempty"`
 	// Hosts (entry "multi-host"): two documents with the same path at locations that differ in one URL
 	// component; each one's relative references belong to its own location
 	Hosts *Hosts `json:"hosts,omitempty"`
@@ -238,6 +242,9 @@ func check(c Case) (o h.Outcome) {
 			fs.Files[k] = []byte(v)
 		}
 		rootBytes = fs.Files[c.Root]
+		if c.MissingTarget != "" {
+			fs.Decoy = nil // the gap is a gap: a location that has no file answers "does not exist"
+		}
 	} else {
 		rootBytes = c.Doc
 		fs.Files[path.Clean(c.Root)] = rootBytes
@@ -339,6 +346,10 @@ func check(c Case) (o h.Outcome) {
 	// switch on: every read must be the root or a file designated by a reference of a read file
 	o.Class("on:%s", c.Entry)
 	allowed := map[string]bool{rootKey: true}
+	if c.MissingTarget != "" {
+		allowed[c.MissingTarget] = true // designated, though absent
+		o.Class("on:missing-target-with-namesake-next-to-root")
+	}
 	all := fsgen.AllRefs(c.Layout.Files)
 	for changed := true; changed; {
 		changed = false
@@ -352,6 +363,16 @@ func check(c Case) (o h.Outcome) {
 						allowed[f] = true
 						changed = true
 					}
+				}
+			} else if c.MissingTarget != "" {
+				// a chain that ends at the planted gap: the files named on the way are designated all the same
+				fp := s.Ref
+				if i := strings.Index(fp, "#"); i >= 0 {
+					fp = fp[:i]
+				}
+				if f := fsgen.ResolvePath(s.File, fp); fp != "" && !strings.Contains(fp, "://") && !allowed[f] {
+					allowed[f] = true
+					changed = true
 				}
 			}
 		}
@@ -372,7 +393,7 @@ func check(c Case) (o h.Outcome) {
 		}
 	}
 	o.NonTrivial = second && len(allowed) >= 3
-	if err != nil {
+	if err != nil && c.MissingTarget == "" {
 		o.Fail("valid-layout-rejected", "a valid layout fails to load with external references allowed: %v", err)
 	}
 	return
@@ -510,6 +531,60 @@ func enumerate(shard, nshards int, yield func(Case)) {
 	}
 }
 
+// plantMissingTarget renames the file part of one relative fragment reference found in a reachable
+// document outside the root's directory, and puts a file of the new relative name next to the root.
+func plantMissingTarget(t *rapid.T, c *Case) {
+	lay := c.Layout
+	reach := map[string]bool{lay.Root: true}
+	all := fsgen.AllRefs(lay.Files)
+	for changed := true; changed; {
+		changed = false
+		for _, s := range all {
+			if reach[s.File] {
+				if tg, err := fsgen.Resolve(lay.Files, s.File, s.Ref); err == nil {
+					for _, f := range tg.Files {
+						if !reach[f] {
+							reach[f], changed = true, true
+						}
+					}
+				}
+			}
+		}
+	}
+	var cands []fsgen.RefSite
+	for _, s := range all {
+		i := strings.Index(s.Ref, "#")
+		if !reach[s.File] || path.Dir(s.File) == path.Dir(lay.Root) || i <= 0 || strings.HasPrefix(s.Ref, "/") || strings.Contains(s.Ref[:i], "://") {
+			continue
+		}
+		var doc map[string]any
+		if json.Unmarshal([]byte(lay.Files[s.File]), &doc) != nil || doc["openapi"] == nil {
+			continue // only references written in documents (element files are read on other routes)
+		}
+		cands = append(cands, s)
+	}
+	if len(cands) == 0 {
+		return
+	}
+	s := cands[rapid.IntRange(0, len(cands)-1).Draw(t, "missingsite")]
+	i := strings.Index(s.Ref, "#")
+	file, frag := s.Ref[:i], s.Ref[i:]
+	j := strings.LastIndex(file, "/")
+	newFile := file[:j+1] + "nowhere-" + file[j+1:]
+	designated := fsgen.ResolvePath(s.File, newFile)
+	namesake := fsgen.ResolvePath(lay.Root, newFile)
+	if designated == namesake || lay.Files[designated] != "" {
+		return
+	}
+	var v any
+	_ = json.Unmarshal([]byte(lay.Files[s.File]), &v)
+	v = setAt(v, append(append([]string{}, s.Ptr...), "$ref"), newFile+frag)
+	b, _ := json.Marshal(v)
+	lay.Files[s.File] = string(b)
+	lay.Files[namesake] = decoy
+	c.MissingTarget = designated
+}
+
 func gen(t *rapid.T) Case {
 	if rapid.IntRange(0, 9).Draw(t, "multihost") == 0 {
 		return Case{Entry: "multi-host", Allow: true, Hosts: &Hosts{Diff: rapid.SampledFrom([]string{"host", "scheme", "query", "port"}).Draw(t, "diff"),
@@ -517,7 +592,11 @@ func gen(t *rapid.T) Case {
 	}
 	if rapid.Bool().Draw(t, "allow") {
 		lay := fsgen.Generate(t, fsgen.Cfg{Absolute: rapid.Bool().Draw(t, "abs"), NoExtension: rapid.IntRange(0, 2).Draw(t, "noext") == 0, NullEntries: rapid.IntRange(0, 3).Draw(t, "nullentries") == 0, CallbackPathRefs: rapid.Bool().Draw(t, "cbpathrefs")})
-		return Case{Layout: lay, Root: lay.Root, Entry: rapid.SampledFrom([]string{"datawithpath", "uri", "file"}).Draw(t, "entry"), Allow: true}
+		c := Case{Layout: lay, Root: lay.Root, Entry: rapid.SampledFrom([]string{"datawithpath", "uri", "file"}).Draw(t, "entry"), Allow: true}
+		if rapid.IntRange(0, 3).Draw(t, "missingtarget") == 0 {
+			plantMissingTarget(t, &c)
+		}
+		return c
 	}
 	raw := docgen.Conforming(t, docgen.Cfg{Unusual: rapid.Bool().Draw(t, "unusual"), Examples: true, MaxPaths: 2})
 	pos := positions(raw)
